@@ -32,7 +32,7 @@ def specs_for(tier, rng):
     return families.goldens(["gram", "example", "example2", "example3", "example7", "nrm_sq"]) \
         + families.accel_specs(stripped=True, names=["outerspace", "gamma"]) \
         + [dict(sp, yaml=families.strip_sections(sp["yaml"], spacetime=False), family=sp["family"] + "-spacetime") for sp in families.accel_specs(stripped=False, names=["outerspace", "gamma"])] \
-        + sample(families.gen_cascade, rng, 40 if q else 400)
+        + sample(families.gen_cascade, rng, 40 if q else 400) + sample(families.gen_cascade_conv, rng, 12 if q else 100)
 
 
 def run(tier, rep):
